@@ -7,6 +7,7 @@ setting, every objective and every stream of trial vectors.
 import MysticVerif.Proofs.ClosedLoop
 import MysticVerif.Proofs.ClosedLoopAlgs
 import MysticVerif.Props.C01
+import MysticVerif.Props.Reconfig
 import MysticVerif.Props.C01Ensemble
 import MysticVerif.Props.C05
 import MysticVerif.Props.C04
